@@ -354,6 +354,13 @@ def value_shapes(tier):
     add("C07 default via type ref", ['Tt ::= INTEGER', 'Ss ::= SEQUENCE { x Tt DEFAULT %d }' % PH(0)], None, None, None, I(0), 1, dflt='ss_x_default')
     add("C07 default named number", ['Tt ::= INTEGER { one(1), big(%d) }' % PH(0), 'Ss ::= SEQUENCE { x Tt DEFAULT big }'], None, None, None, I(0), 1, dflt='ss_x_default')
     add("C07 default value reference", [f"w INTEGER ::= {PH(0)}", 'Ss ::= SEQUENCE { x INTEGER DEFAULT w }'], None, None, None, I(0), 1, dflt='ss_x_default')
+    # X.680 19.10 / 20: inside a value of the type, a named number / enumeral of the governing type wins over a value assignment of the same name
+    nn = 'Tt ::= INTEGER { low(1), high(%d) } (0..4294967295)' % PH(0)
+    add("C07 default named number shadows a value of another type", [nn, 'high INTEGER ::= 22', 'Ss ::= SEQUENCE { x Tt DEFAULT high }'], None, None, None, I(0), 1, dflt='ss_x_default')
+    add("C07 default named number shadows a value of the same type", [nn, 'high Tt ::= 7', 'Ss ::= SEQUENCE { x Tt DEFAULT high }'], None, None, None, I(0), 1, dflt='ss_x_default')
+    add("C07 default named number shadows a value through an alias", [nn, 'Uu ::= Tt', 'high INTEGER ::= 22', 'Ss ::= SEQUENCE { x Uu DEFAULT high }'], None, None, None, I(0), 1, dflt='ss_x_default')
+    add("C07 default enumeral shadows a value", ['Ee ::= ENUMERATED { red, green, blue }', 'blue Ee ::= red', 'Ss ::= SEQUENCE { x Ee DEFAULT blue }'], None, None, None, V('enum', name='blue'), 0, dflt='ss_x_default')
+    add("C07 value named number shadows a value", [nn, 'high INTEGER ::= 22'], 'v', 'Tt', 'high', I(0), 1)
     add("C07 default string", ['Ss ::= SEQUENCE { x UTF8String DEFAULT "a""b" }'], None, None, None, V('str', s='a"b'), 0, dflt='ss_x_default')
     add("C07 default bits", ["Ss ::= SEQUENCE { x BIT STRING DEFAULT '101'B }"], None, None, None, V('bits', bits=[True, False, True]), 0, dflt='ss_x_default')
     add("C07 default named bits", ["Bb ::= BIT STRING { r(0), s(2) }", "Ss ::= SEQUENCE { x Bb DEFAULT { s } }"], None, None, None, V('bits', bits=[False, False, True]), 0, dflt='ss_x_default')
